@@ -57,6 +57,7 @@ type vProcT struct {
 	crashed   chan struct{} // closed when the processor goroutine panicked (the real worker would exit 3)
 	tainted   map[string]bool
 	snap      map[*App]vSnap // the applications' timestamps as corrected at the start of the previous op
+	slowHold  chan struct{}  // non-nil: the processor loop is inside AggregateInto of a slow transaction, waiting for this
 	prevStart time.Time
 	prevEnd   time.Time
 }
@@ -459,6 +460,43 @@ func (v *vProcT) isCrashed() bool {
 	default:
 		return false
 	}
+}
+
+// vSlowH forwards to the processor; the transaction's aggregation announces itself and then waits until released (an
+// aggregation that takes a while: the processor loop is busy inside it)
+type vSlowH struct {
+	p       *Processor
+	entered chan struct{}
+	release chan struct{}
+}
+
+type vSlowSmp struct {
+	s      *vSlowH
+	sample AggregaterInto
+}
+
+func (x vSlowSmp) AggregateInto(h *Harvest) {
+	close(x.s.entered)
+	<-x.s.release
+	x.sample.AggregateInto(h)
+}
+
+func (s *vSlowH) IncomingTxnData(id AgentRunID, sample AggregaterInto) {
+	s.p.IncomingTxnData(id, vSlowSmp{s, sample})
+}
+func (s *vSlowH) IncomingSpanBatch(b SpanBatch) { s.p.IncomingSpanBatch(b) }
+func (s *vSlowH) IncomingAppInfo(id *AgentRunID, info *AppInfo) AppInfoReply {
+	return s.p.IncomingAppInfo(id, info)
+}
+
+// finishSlow lets a slow transaction's aggregation complete (the loop then reports progress)
+func (v *vProcT) finishSlow() bool {
+	if v.slowHold == nil {
+		return true
+	}
+	close(v.slowHold)
+	v.slowHold = nil
+	return v.tick()
 }
 
 // vSpy forwards to the processor and remembers whether transaction data / a span batch was queued
@@ -1003,7 +1041,24 @@ func vProcOp(t []string) string {
 	// duration of one op.  The processor goroutine is parked between ops.
 	v.compensate()
 	defer v.noteApps()
+	if op != "cleanexit" && !v.finishSlow() {
+		return "stuck"
+	}
 	switch op {
+	case "slowtxn":
+		// proc slowtxn <run> <txn spec>: a transaction whose aggregation takes a while; the op returns while the processor
+		// loop is inside it.  The next op (cleanexit: the termination request arrives now) or its start releases it.
+		msg := vBuildTxn(vStr(t, 2), t)
+		sl := &vSlowH{p: v.p, entered: make(chan struct{}), release: make(chan struct{})}
+		go CommandsHandler{Processor: sl}.HandleMessage(RawMessage{Type: MessageTypeBinary, Bytes: msg})
+		select {
+		case <-sl.entered:
+			v.slowHold = sl.release
+		case <-v.p.trackProgress: // not aggregated at all (no such run): the loop has moved on
+		case <-time.After(vWatchdog):
+			return "stuck"
+		}
+		return "ok"
 	case "taint":
 		v.mu.Lock()
 		v.tainted[vStr(t, 2)] = true
@@ -1222,6 +1277,24 @@ func vProcOp(t []string) string {
 			v.p.CleanExit()
 			close(done)
 		}()
+		// the termination request may find the processor loop busy with a message: the final flush must not start (let alone
+		// finish) before the loop has stopped
+		early := 0
+		if v.slowHold != nil {
+			select {
+			case <-done:
+				early = 1
+			case <-time.After(150 * time.Millisecond):
+			}
+			smu.Lock()
+			if len(seen) > 0 {
+				early = 1
+			}
+			smu.Unlock()
+			if !v.finishSlow() {
+				return "stuck"
+			}
+		}
 		returned := 1
 		select {
 		case <-done:
@@ -1248,7 +1321,7 @@ func vProcOp(t []string) string {
 		v.mu.Lock()
 		bad := v.badJSON
 		v.mu.Unlock()
-		return fmt.Sprintf("returned=%d badjson=%d reqs=%s", returned, bad, out)
+		return fmt.Sprintf("returned=%d early=%d badjson=%d reqs=%s", returned, early, bad, out)
 	}
 	return "bad-op"
 }
